@@ -273,9 +273,10 @@ ISOLINUX = bytes(0x40) + b'\xfb\xc0\x78\x70' + bytes((i * 11 + 1) & 0xff for i i
 HYBRIDS = {
     'default': (dict(), dict(mbr_id=0x12345678), []),
     'geometry-and-entry': (dict(), dict(part_entry=3, mbr_id=1, part_offset=0, geometry_sectors=63, geometry_heads=255, part_type=0x83), [('file', '/AFTER.;1', 5000)]),
-    'boot-file-moves': (dict(), dict(mbr_id=7), [('file', '/0EARLY.;1', 70000), ('dir', '/D'), ('file', '/D/X.;1', 3)]),
-    'efi': (dict(), dict(mbr_id=9, efi=True), [('file', '/Z.;1', 4097)]),
-    'efi-mac': (dict(), dict(mbr_id=9, mac=True), []),
+    'boot-file-moves': (dict(), dict(mbr_id=7, geometry_heads=16, geometry_sectors=2), [('file', '/0EARLY.;1', 70000), ('dir', '/D'), ('file', '/D/X.;1', 3)]),
+    'efi': (dict(), dict(mbr_id=9, efi=True, geometry_heads=4, geometry_sectors=8), [('file', '/Z.;1', 4097)]),
+    'efi-mac': (dict(), dict(mbr_id=9, mac=True, geometry_heads=8, geometry_sectors=4), []),
+    'partition-offset': (dict(), dict(mbr_id=3, part_offset=16, geometry_sectors=17, geometry_heads=5), [('file', '/PAD.;1', 100000)]),
 }
 
 
@@ -329,9 +330,10 @@ class HybridImage(Base):
     their EFI partition delimits exactly the sectors of the EFI boot image."""
     target = S.PC + '.write_fp'
     variant = 'default'
+    reopen = False
     crosscheck = False
     hooks = {'pycdlib.isohybrid.crc32': concrete_crc32_hook}
-    label = property(lambda self: 'pycdlib.PyCdlib.write_fp<hybrid:%s>' % self.variant)
+    label = property(lambda self: 'pycdlib.PyCdlib.write_fp<hybrid:%s%s>' % (self.variant, ' reopened' if self.reopen else ''))
 
     def setup(self, c):
         S.pin_environment(c)
@@ -361,6 +363,12 @@ class HybridImage(Base):
                 S.call(c, iso, 'add_fp', S.data_file(c, data), op[2], iso_path=op[1])
             else:
                 S.call(c, iso, 'add_directory', iso_path=op[1])
+        a.first = None
+        if self.reopen:
+            # the same, after the image went through write -> open -> write (C05: parsing restores what mastering depends on)
+            a.first = S.written(c, iso)
+            iso = c.new(S.PC)
+            S.call(c, iso, 'open_fp', c.file(a.first))
         a.iso = iso
         a.out = c.file(b'')
         return Call([a.out], self_obj=iso)
@@ -369,6 +377,8 @@ class HybridImage(Base):
         img = list(a.out.items) if c.symbolic else list(a.out.getvalue())
         kw, hyb, later = HYBRIDS[self.variant]
         cl = {}
+        if a.first is not None:
+            cl['remastering-is-a-fixpoint'] = Eq(V.mk_bytes(img), a.first)
         try:
             im, res = R.read_iso(img)
             et = read_eltorito(im)
